@@ -1,5 +1,708 @@
+/-
+  C17 — HTML marking wraps exactly the marked elements' text and keeps the query intact.
+
+  The output of `HTMLMarker` is described as a list of tokens (`markToks`): characters of the query,
+  opening tags carrying a class, closing tags. Then:
+   * removing the tags gives back the query text exactly (`erase_markToks`, `htmlMark_erase`);
+   * the tags are properly nested (`balanced_markToks`);
+   * rendering the tokens is the actual output (`render_markToks`, `htmlMark_eq_render`);
+   * every character is rendered with the class of the innermost marked sub-expression whose text
+     (head and tail included) contains it (`classAt_markToks`), in both modes; parsimony changes only
+     how many elements are emitted (`parcimonious_same_classes`, `tagOf_none_iff`);
+   * `markTree` changes only heads / tails (`Luqum.Lemmas.Mark.markTree_eq`, `markTree_at`,
+     `markLay_cases`), restated here as `markTree_shape`.
+  Model-level lemmas are in Luqum/Lemmas/Mark.lean.
+-/
 import Luqum.Model.Naming
+import Luqum.Lemmas.Mark
+
 namespace Luqum.Props.C17
-open Luqum
-theorem first_name : nextName none = some ['a'] := by decide
+open Luqum Luqum.Lemmas.Mark
+
+/-! ### the marked output as tokens -/
+
+/-- a piece of the marked output: a character of the query, an opening tag with its class, a
+closing tag -/
+inductive MTok where
+  | chr (c : Char)
+  | opn (cls : Str)
+  | clo
+deriving DecidableEq, Repr
+
+def chrs (s : Str) : List MTok := s.map .chr
+
+/-- the class of the element that `mark_node` adds around the node at `path` (`none`: no element):
+the node's own class, except that in parsimonious mode nothing is added when the nearest marked
+strict ancestor has that very class -/
+def tagOf (m : MarkCfg) (ok ko : List (List Nat)) (path : List Nat) : Option Str :=
+  match cssClass m ok ko path with
+  | none => none
+  | some cls =>
+    if (if m.parcimonious then parentClass m ok ko (path.length + 1) path != some cls else true)
+    then some cls else none
+
+def wrap : Option Str → List MTok → List MTok
+  | none, ts => ts
+  | some c, ts => .opn c :: ts ++ [.clo]
+
+/-- `joinWith` for any kind of items -/
+def joinL {α : Type} (sep : List α) : List (List α) → List α
+  | [] => []
+  | [x] => x
+  | x :: y :: r => x ++ sep ++ joinL sep (y :: r)
+
+/-- one node: the optional element encloses head, body and tail -/
+def nodeToks (tag : Option Str) (l : Lay) (body : List MTok) : List MTok :=
+  wrap tag (chrs l.head ++ body ++ chrs l.tail)
+
+mutual
+/-- the marked output, by recursion on the ORIGINAL tree, parallel to `Tree.full` -/
+def markToks (s : NumStyle) (m : MarkCfg) (ok ko : List (List Nat)) (path : List Nat) :
+    Tree → List MTok
+  | .none _ => []   -- `NoneItem` prints as empty and ignores head / tail: its mark vanishes
+  | .term _ v l => nodeToks (tagOf m ok ko path) l (chrs v)
+  | .field n e l =>
+      nodeToks (tagOf m ok ko path) l (chrs n ++ chrs [':'] ++ markToks s m ok ko (path ++ [0]) e)
+  | .group _ e l =>
+      nodeToks (tagOf m ok ko path) l (chrs ['('] ++ markToks s m ok ko (path ++ [0]) e ++ chrs [')'])
+  | .range a b il ih l =>
+      nodeToks (tagOf m ok ko path) l
+        (chrs [if il then '[' else '{'] ++ markToks s m ok ko (path ++ [0]) a ++ chrs "TO".toList
+          ++ markToks s m ok ko (path ++ [1]) b ++ chrs [if ih then ']' else '}'])
+  | .approx _ t n l =>
+      nodeToks (tagOf m ok ko path) l (markToks s m ok ko (path ++ [0]) t ++ chrs ['~'] ++ chrs (n.text s))
+  | .boost e n l =>
+      nodeToks (tagOf m ok ko path) l (markToks s m ok ko (path ++ [0]) e ++ chrs ['^'] ++ chrs (n.text s))
+  | .op k xs l =>
+      nodeToks (tagOf m ok ko path) l (joinL (chrs k.word) (markToksList s m ok ko path 0 xs))
+  | .unary k a l =>
+      nodeToks (tagOf m ok ko path) l (chrs k.word ++ markToks s m ok ko (path ++ [0]) a)
+  | .orange k a inc l =>
+      nodeToks (tagOf m ok ko path) l
+        (chrs k.word ++ chrs (if inc then ['='] else []) ++ markToks s m ok ko (path ++ [0]) a)
+def markToksList (s : NumStyle) (m : MarkCfg) (ok ko : List (List Nat)) (path : List Nat) (i : Nat) :
+    List Tree → List (List MTok)
+  | [] => []
+  | x :: r => markToks s m ok ko (path ++ [i]) x :: markToksList s m ok ko path (i + 1) r
+end
+
+/-- drop the tags, keep the characters -/
+def erase : List MTok → Str
+  | [] => []
+  | .chr c :: r => c :: erase r
+  | .opn _ :: r => erase r
+  | .clo :: r => erase r
+
+/-- the text of the tokens (tags spelled exactly as `mark_node` does) -/
+def render (m : MarkCfg) : List MTok → Str
+  | [] => []
+  | .chr c :: r => c :: render m r
+  | .opn cls :: r =>
+      ("<".toList ++ m.element ++ " class=\"".toList ++ cls ++ "\">".toList) ++ render m r
+  | .clo :: r => ("</".toList ++ m.element ++ ">".toList) ++ render m r
+
+/-- depth after reading the tokens from depth `d`; `none` when a closing tag has no opening one -/
+def balAux : Nat → List MTok → Option Nat
+  | d, [] => some d
+  | d, .chr _ :: r => balAux d r
+  | d, .opn _ :: r => balAux (d + 1) r
+  | 0, .clo :: _ => none
+  | d + 1, .clo :: r => balAux d r
+
+/-- tags are properly nested: the depth never goes negative and ends at 0 -/
+def balanced (ts : List MTok) : Bool := balAux 0 ts == some 0
+
+/-- class in force at each character: the top of the stack of open elements -/
+def classAtAux : List Str → List MTok → List (Char × Option Str)
+  | _, [] => []
+  | stk, .chr c :: r => (c, stk.head?) :: classAtAux stk r
+  | stk, .opn cls :: r => classAtAux (cls :: stk) r
+  | stk, .clo :: r => classAtAux stk.tail r
+
+def classAt : List MTok → List (Char × Option Str) := classAtAux []
+
+/-- class of the nearest ancestor-or-self of `path` that has a class (independent of the mode) -/
+def effClass (m : MarkCfg) (ok ko : List (List Nat)) (path : List Nat) : Option Str :=
+  match cssClass m ok ko path with
+  | some c => some c
+  | none => parentClass m ok ko (path.length + 1) path
+
+/-- label every character of `s` with `c` -/
+def lab (c : Option Str) (s : Str) : List (Char × Option Str) := s.map (fun x => (x, c))
+
+mutual
+/-- specification of the class of every character, parallel to `Tree.full`: every character that
+the node at `path` contributes itself (head, own text, separators, tail) carries `cls path`;
+the characters of the children are labelled recursively -/
+def charClasses (s : NumStyle) (cls : List Nat → Option Str) (path : List Nat) :
+    Tree → List (Char × Option Str)
+  | .none _ => []
+  | .term _ v l => lab (cls path) l.head ++ lab (cls path) v ++ lab (cls path) l.tail
+  | .field n e l =>
+      lab (cls path) l.head ++ (lab (cls path) n ++ lab (cls path) [':']
+        ++ charClasses s cls (path ++ [0]) e) ++ lab (cls path) l.tail
+  | .group _ e l =>
+      lab (cls path) l.head ++ (lab (cls path) ['('] ++ charClasses s cls (path ++ [0]) e
+        ++ lab (cls path) [')']) ++ lab (cls path) l.tail
+  | .range a b il ih l =>
+      lab (cls path) l.head ++ (lab (cls path) [if il then '[' else '{']
+        ++ charClasses s cls (path ++ [0]) a ++ lab (cls path) "TO".toList
+        ++ charClasses s cls (path ++ [1]) b ++ lab (cls path) [if ih then ']' else '}'])
+        ++ lab (cls path) l.tail
+  | .approx _ t n l =>
+      lab (cls path) l.head ++ (charClasses s cls (path ++ [0]) t ++ lab (cls path) ['~']
+        ++ lab (cls path) (n.text s)) ++ lab (cls path) l.tail
+  | .boost e n l =>
+      lab (cls path) l.head ++ (charClasses s cls (path ++ [0]) e ++ lab (cls path) ['^']
+        ++ lab (cls path) (n.text s)) ++ lab (cls path) l.tail
+  | .op k xs l =>
+      lab (cls path) l.head ++ joinL (lab (cls path) k.word) (charClassesList s cls path 0 xs)
+        ++ lab (cls path) l.tail
+  | .unary k a l =>
+      lab (cls path) l.head ++ (lab (cls path) k.word ++ charClasses s cls (path ++ [0]) a)
+        ++ lab (cls path) l.tail
+  | .orange k a inc l =>
+      lab (cls path) l.head ++ (lab (cls path) k.word ++ lab (cls path) (if inc then ['='] else [])
+        ++ charClasses s cls (path ++ [0]) a) ++ lab (cls path) l.tail
+def charClassesList (s : NumStyle) (cls : List Nat → Option Str) (path : List Nat) (i : Nat) :
+    List Tree → List (List (Char × Option Str))
+  | [] => []
+  | x :: r => charClasses s cls (path ++ [i]) x :: charClassesList s cls path (i + 1) r
+end
+
+/-! ### helper lemmas on tokens -/
+
+theorem joinWith_eq_joinL (sep : Str) : ∀ xs : List Str, joinWith sep xs = joinL sep xs
+  | [] => rfl
+  | [_] => rfl
+  | x :: y :: r => by simp [joinWith, joinL, joinWith_eq_joinL sep (y :: r)]
+
+/-- a function that respects concatenation respects joining -/
+theorem joinL_hom {α β : Type} (f : List α → List β) (hf : ∀ a b, f (a ++ b) = f a ++ f b)
+    (hnil : f [] = []) (sep : List α) :
+    ∀ xs : List (List α), f (joinL sep xs) = joinL (f sep) (xs.map f)
+  | [] => by simp [joinL, hnil]
+  | [_] => by simp [joinL]
+  | x :: y :: r => by
+      have ih := joinL_hom f hf hnil sep (y :: r)
+      simp only [List.map_cons] at ih
+      simp [joinL, hf, ih]
+
+@[simp] theorem chrs_nil : chrs [] = [] := rfl
+@[simp] theorem chrs_append (a b : Str) : chrs (a ++ b) = chrs a ++ chrs b := by simp [chrs]
+
+theorem erase_append : ∀ a b : List MTok, erase (a ++ b) = erase a ++ erase b
+  | [], b => rfl
+  | .chr c :: r, b => by simp [erase, erase_append r b]
+  | .opn _ :: r, b => by simp [erase, erase_append r b]
+  | .clo :: r, b => by simp [erase, erase_append r b]
+
+theorem erase_chrs : ∀ s : Str, erase (chrs s) = s
+  | [] => rfl
+  | c :: r => by simp [chrs, erase]; exact erase_chrs r
+
+theorem erase_wrap (tag : Option Str) (ts : List MTok) : erase (wrap tag ts) = erase ts := by
+  cases tag <;> simp [wrap, erase, erase_append]
+
+theorem erase_nodeToks (tag : Option Str) (l : Lay) (body : List MTok) :
+    erase (nodeToks tag l body) = l.head ++ erase body ++ l.tail := by
+  simp [nodeToks, erase_wrap, erase_append, erase_chrs]
+
+theorem render_append (m : MarkCfg) : ∀ a b : List MTok, render m (a ++ b) = render m a ++ render m b
+  | [], b => rfl
+  | .chr c :: r, b => by simp [render, render_append m r b]
+  | .opn _ :: r, b => by simp [render, render_append m r b]
+  | .clo :: r, b => by simp [render, render_append m r b]
+
+theorem render_chrs (m : MarkCfg) : ∀ s : Str, render m (chrs s) = s
+  | [] => rfl
+  | c :: r => by simp [chrs, render]; exact render_chrs m r
+
+/-- `markLay` in terms of `tagOf` -/
+theorem markLay_tagOf (m : MarkCfg) (ok ko : List (List Nat)) (path : List Nat) (l : Lay) :
+    markLay m ok ko path l =
+      match tagOf m ok ko path with
+      | none => l
+      | some cls =>
+        { l with head := "<".toList ++ m.element ++ " class=\"".toList ++ cls ++ "\">".toList ++ l.head,
+                 tail := l.tail ++ "</".toList ++ m.element ++ ">".toList } := by
+  unfold markLay tagOf
+  cases cssClass m ok ko path with
+  | none => rfl
+  | some cls =>
+    dsimp only
+    by_cases hadd : (if m.parcimonious then
+        parentClass m ok ko (path.length + 1) path != some cls else true) = true
+    · rw [if_pos hadd, if_pos hadd]
+    · rw [if_neg hadd, if_neg hadd]
+
+/-- rendering one node: the marked head, the body, the marked tail -/
+theorem render_nodeToks (m : MarkCfg) (ok ko : List (List Nat)) (path : List Nat) (l : Lay)
+    (body : List MTok) :
+    render m (nodeToks (tagOf m ok ko path) l body) =
+      (markLay m ok ko path l.noName).head ++ render m body ++ (markLay m ok ko path l.noName).tail := by
+  rw [markLay_tagOf]
+  cases tagOf m ok ko path <;>
+    simp [nodeToks, wrap, render, render_append, render_chrs, Lay.noName, List.append_assoc]
+
+theorem balAux_append : ∀ (a b : List MTok) (d : Nat),
+    balAux d (a ++ b) = (balAux d a).bind (fun d' => balAux d' b)
+  | [], b, d => by simp [balAux]
+  | .chr _ :: r, b, d => by simp [balAux, balAux_append r b]
+  | .opn _ :: r, b, d => by simp [balAux, balAux_append r b]
+  | .clo :: r, b, 0 => by simp [balAux]
+  | .clo :: r, b, d + 1 => by simp [balAux, balAux_append r b]
+
+/-- a self-contained balanced block: from any depth, back to that depth -/
+def Bal (ts : List MTok) : Prop := ∀ d, balAux d ts = some d
+
+theorem Bal.nil : Bal [] := fun _ => rfl
+theorem Bal.append {a b : List MTok} (ha : Bal a) (hb : Bal b) : Bal (a ++ b) := by
+  intro d; simp [balAux_append, ha d, hb d]
+theorem Bal.chrs : ∀ s : Str, Bal (chrs s)
+  | [] => Bal.nil
+  | c :: r => by intro d; simp only [C17.chrs, List.map_cons, balAux]; exact Bal.chrs r d
+theorem Bal.wrap (tag : Option Str) {ts : List MTok} (h : Bal ts) : Bal (wrap tag ts) := by
+  cases tag with
+  | none => exact h
+  | some c => intro d; simp [C17.wrap, balAux, balAux_append, h (d + 1)]
+theorem Bal.nodeToks (tag : Option Str) (l : Lay) {body : List MTok} (h : Bal body) :
+    Bal (nodeToks tag l body) :=
+  Bal.wrap tag (Bal.append (Bal.append (Bal.chrs _) h) (Bal.chrs _))
+theorem Bal.joinL {sep : List MTok} (hs : Bal sep) :
+    ∀ xs : List (List MTok), (∀ x ∈ xs, Bal x) → Bal (joinL sep xs)
+  | [], _ => Bal.nil
+  | [x], h => h x (by simp)
+  | x :: y :: r, h =>
+      Bal.append (Bal.append (h x (by simp)) hs) (Bal.joinL hs (y :: r) (fun z hz => h z (by simp [hz])))
+
+theorem classAtAux_chrs (stk : List Str) : ∀ (s : Str) (rest : List MTok),
+    classAtAux stk (chrs s ++ rest) = lab stk.head? s ++ classAtAux stk rest
+  | [], rest => rfl
+  | c :: r, rest => by
+      simp only [chrs, List.map_cons, List.cons_append, classAtAux, lab, List.cons.injEq, true_and]
+      exact classAtAux_chrs stk r rest
+
+/-- from a child of `path`, the nearest marked strict ancestor is the nearest marked
+ancestor-or-self of `path` -/
+theorem parentClass_child (m : MarkCfg) (ok ko : List (List Nat)) (path : List Nat) (i : Nat) :
+    parentClass m ok ko ((path ++ [i]).length + 1) (path ++ [i]) = effClass m ok ko path := by
+  rw [parentClass_snoc, effClass]
+  cases cssClass m ok ko path <;> rfl
+
+/-- (b) in parsimonious mode an element is omitted only when the nearest marked strict ancestor has
+the same class (without parsimony: only when the node has no class) -/
+theorem tagOf_none_iff (m : MarkCfg) (ok ko : List (List Nat)) (path : List Nat) :
+    tagOf m ok ko path = none ↔
+      cssClass m ok ko path = none ∨
+      (m.parcimonious = true ∧ ∃ cls, cssClass m ok ko path = some cls ∧
+        parentClass m ok ko (path.length + 1) path = some cls) := by
+  unfold tagOf
+  cases cssClass m ok ko path with
+  | none => simp
+  | some cls => cases hp : m.parcimonious <;> simp
+
+/-- an emitted element always carries the node's own class -/
+theorem tagOf_some (m : MarkCfg) (ok ko : List (List Nat)) (path : List Nat) (cls : Str)
+    (h : tagOf m ok ko path = some cls) : cssClass m ok ko path = some cls := by
+  unfold tagOf at h
+  cases hc : cssClass m ok ko path with
+  | none => simp [hc] at h
+  | some c => simp [hc] at h; simp [h.2]
+
+/-- whether or not the element is emitted, inside the node the class in force is `effClass path`,
+and after the node the stack is back to what it was -/
+theorem classAtAux_wrap (m : MarkCfg) (ok ko : List (List Nat)) (path : List Nat) (stk : List Str)
+    (hstk : stk.head? = parentClass m ok ko (path.length + 1) path)
+    (inner rest : List MTok) (X : List (Char × Option Str))
+    (hin : ∀ (stk' : List Str) (rest' : List MTok), stk'.head? = effClass m ok ko path →
+      classAtAux stk' (inner ++ rest') = X ++ classAtAux stk' rest') :
+    classAtAux stk (wrap (tagOf m ok ko path) inner ++ rest) = X ++ classAtAux stk rest := by
+  cases htag : tagOf m ok ko path with
+  | some cls =>
+    have hc := tagOf_some m ok ko path cls htag
+    have := hin (cls :: stk) (.clo :: rest) (by simp [effClass, hc])
+    simpa [wrap, classAtAux, List.append_assoc] using this
+  | none =>
+    refine hin stk rest ?_
+    rw [hstk, effClass]
+    rcases (tagOf_none_iff m ok ko path).1 htag with h | ⟨_, cls, h1, h2⟩
+    · rw [h]
+    · rw [h1, h2]
+
+theorem lab_append (c : Option Str) (a b : Str) : lab c (a ++ b) = lab c a ++ lab c b := by
+  simp [lab]
+
+theorem map_fst_lab (c : Option Str) (s : Str) : (lab c s).map Prod.fst = s := by
+  simp [lab, Function.comp_def]
+
+/-! ### part 1: text kept, tags nested, tokens = real output -/
+
+mutual
+/-- **(i)** removing the inserted elements gives back the query text exactly -/
+theorem erase_markToks (s : NumStyle) (m : MarkCfg) (ok ko : List (List Nat)) :
+    ∀ (path : List Nat) (t : Tree), erase (markToks s m ok ko path t) = t.full s
+  | path, .none _ => by simp [markToks, Tree.full, erase]
+  | path, .term _ v l => by simp [markToks, Tree.full, erase_nodeToks, erase_chrs]
+  | path, .field n e l => by
+      simp [markToks, Tree.full, erase_nodeToks, erase_append, erase_chrs,
+        erase_markToks s m ok ko (path ++ [0]) e]
+  | path, .group _ e l => by
+      simp [markToks, Tree.full, erase_nodeToks, erase_append, erase_chrs,
+        erase_markToks s m ok ko (path ++ [0]) e]
+  | path, .range a b il ih l => by
+      simp [markToks, Tree.full, erase_nodeToks, erase_append, erase_chrs,
+        erase_markToks s m ok ko (path ++ [0]) a, erase_markToks s m ok ko (path ++ [1]) b]
+  | path, .approx _ e n l => by
+      simp [markToks, Tree.full, erase_nodeToks, erase_append, erase_chrs,
+        erase_markToks s m ok ko (path ++ [0]) e]
+  | path, .boost e n l => by
+      simp [markToks, Tree.full, erase_nodeToks, erase_append, erase_chrs,
+        erase_markToks s m ok ko (path ++ [0]) e]
+  | path, .op k xs l => by
+      simp [markToks, Tree.full, erase_nodeToks, joinL_hom erase erase_append rfl, erase_chrs,
+        erase_markToksList s m ok ko path 0 xs, joinWith_eq_joinL]
+  | path, .unary k e l => by
+      simp [markToks, Tree.full, erase_nodeToks, erase_append, erase_chrs,
+        erase_markToks s m ok ko (path ++ [0]) e]
+  | path, .orange k e i l => by
+      simp [markToks, Tree.full, erase_nodeToks, erase_append, erase_chrs,
+        erase_markToks s m ok ko (path ++ [0]) e]
+theorem erase_markToksList (s : NumStyle) (m : MarkCfg) (ok ko : List (List Nat)) :
+    ∀ (path : List Nat) (i : Nat) (xs : List Tree),
+      (markToksList s m ok ko path i xs).map erase = Tree.fulls s xs
+  | path, i, [] => by simp [markToksList, Tree.fulls]
+  | path, i, x :: r => by
+      simp [markToksList, Tree.fulls, erase_markToks s m ok ko (path ++ [i]) x,
+        erase_markToksList s m ok ko path (i + 1) r]
+end
+
+mutual
+theorem bal_markToks (s : NumStyle) (m : MarkCfg) (ok ko : List (List Nat)) :
+    ∀ (path : List Nat) (t : Tree), Bal (markToks s m ok ko path t)
+  | path, .none _ => by simp only [markToks]; exact Bal.nil
+  | path, .term _ v l => by simp only [markToks]; exact Bal.nodeToks _ _ (Bal.chrs _)
+  | path, .field n e l => by
+      simp only [markToks]
+      exact Bal.nodeToks _ _ (Bal.append (Bal.append (Bal.chrs _) (Bal.chrs _))
+        (bal_markToks s m ok ko (path ++ [0]) e))
+  | path, .group _ e l => by
+      simp only [markToks]
+      exact Bal.nodeToks _ _ (Bal.append (Bal.append (Bal.chrs _)
+        (bal_markToks s m ok ko (path ++ [0]) e)) (Bal.chrs _))
+  | path, .range a b il ih l => by
+      simp only [markToks]
+      exact Bal.nodeToks _ _ (Bal.append (Bal.append (Bal.append (Bal.append (Bal.chrs _)
+        (bal_markToks s m ok ko (path ++ [0]) a)) (Bal.chrs _))
+        (bal_markToks s m ok ko (path ++ [1]) b)) (Bal.chrs _))
+  | path, .approx _ e n l => by
+      simp only [markToks]
+      exact Bal.nodeToks _ _ (Bal.append (Bal.append
+        (bal_markToks s m ok ko (path ++ [0]) e) (Bal.chrs _)) (Bal.chrs _))
+  | path, .boost e n l => by
+      simp only [markToks]
+      exact Bal.nodeToks _ _ (Bal.append (Bal.append
+        (bal_markToks s m ok ko (path ++ [0]) e) (Bal.chrs _)) (Bal.chrs _))
+  | path, .op k xs l => by
+      simp only [markToks]
+      exact Bal.nodeToks _ _ (Bal.joinL (Bal.chrs _) _ (bal_markToksList s m ok ko path 0 xs))
+  | path, .unary k e l => by
+      simp only [markToks]
+      exact Bal.nodeToks _ _ (Bal.append (Bal.chrs _) (bal_markToks s m ok ko (path ++ [0]) e))
+  | path, .orange k e i l => by
+      simp only [markToks]
+      exact Bal.nodeToks _ _ (Bal.append (Bal.append (Bal.chrs _) (Bal.chrs _))
+        (bal_markToks s m ok ko (path ++ [0]) e))
+theorem bal_markToksList (s : NumStyle) (m : MarkCfg) (ok ko : List (List Nat)) :
+    ∀ (path : List Nat) (i : Nat) (xs : List Tree),
+      ∀ x ∈ markToksList s m ok ko path i xs, Bal x
+  | path, i, [] => by simp [markToksList]
+  | path, i, x :: r => by
+      intro y hy
+      simp only [markToksList, List.mem_cons] at hy
+      rcases hy with rfl | hy
+      · exact bal_markToks s m ok ko (path ++ [i]) x
+      · exact bal_markToksList s m ok ko path (i + 1) r y hy
+end
+
+/-- **(ii)** the inserted elements are properly nested (every closing tag closes the latest open
+element, none is left open) -/
+theorem balanced_markToks (s : NumStyle) (m : MarkCfg) (ok ko : List (List Nat)) (path : List Nat)
+    (t : Tree) : balanced (markToks s m ok ko path t) = true := by
+  simp [balanced, bal_markToks s m ok ko path t 0]
+
+mutual
+/-- **(iii)** the tokens, spelled out, are the text of the marked tree -/
+theorem render_markToks (s : NumStyle) (m : MarkCfg) (ok ko : List (List Nat)) :
+    ∀ (path : List Nat) (t : Tree),
+      render m (markToks s m ok ko path t) = (markTree m ok ko path t).full s
+  | path, .none _ => by simp [markToks, markTree, Tree.full, render]
+  | path, .term _ v l => by simp [markToks, markTree, Tree.full, render_nodeToks, render_chrs]
+  | path, .field n e l => by
+      simp [markToks, markTree, Tree.full, render_nodeToks, render_append, render_chrs,
+        render_markToks s m ok ko (path ++ [0]) e]
+  | path, .group _ e l => by
+      simp [markToks, markTree, Tree.full, render_nodeToks, render_append, render_chrs,
+        render_markToks s m ok ko (path ++ [0]) e]
+  | path, .range a b il ih l => by
+      simp [markToks, markTree, Tree.full, render_nodeToks, render_append, render_chrs,
+        render_markToks s m ok ko (path ++ [0]) a, render_markToks s m ok ko (path ++ [1]) b]
+  | path, .approx _ e n l => by
+      simp [markToks, markTree, Tree.full, render_nodeToks, render_append, render_chrs,
+        render_markToks s m ok ko (path ++ [0]) e]
+  | path, .boost e n l => by
+      simp [markToks, markTree, Tree.full, render_nodeToks, render_append, render_chrs,
+        render_markToks s m ok ko (path ++ [0]) e]
+  | path, .op k xs l => by
+      simp [markToks, markTree, Tree.full, render_nodeToks,
+        joinL_hom (render m) (render_append m) rfl, render_chrs,
+        render_markToksList s m ok ko path 0 xs, joinWith_eq_joinL]
+  | path, .unary k e l => by
+      simp [markToks, markTree, Tree.full, render_nodeToks, render_append, render_chrs,
+        render_markToks s m ok ko (path ++ [0]) e]
+  | path, .orange k e i l => by
+      simp [markToks, markTree, Tree.full, render_nodeToks, render_append, render_chrs,
+        render_markToks s m ok ko (path ++ [0]) e]
+theorem render_markToksList (s : NumStyle) (m : MarkCfg) (ok ko : List (List Nat)) :
+    ∀ (path : List Nat) (i : Nat) (xs : List Tree),
+      (markToksList s m ok ko path i xs).map (render m) = Tree.fulls s (markList m ok ko path i xs)
+  | path, i, [] => by simp [markToksList, markList, Tree.fulls]
+  | path, i, x :: r => by
+      simp [markToksList, markList, Tree.fulls, render_markToks s m ok ko (path ++ [i]) x,
+        render_markToksList s m ok ko path (i + 1) r]
+end
+
+/-- the output of `HTMLMarker` is the rendering of the tokens -/
+theorem htmlMark_eq_render (m : MarkCfg) (ok ko : List (List Nat)) (t : Tree) :
+    htmlMark m ok ko t = render m (markToks .norm m ok ko [] t) := by
+  rw [render_markToks]; rfl
+
+/-- … and without its tags it is the query as printed (`str` with head and tail) -/
+theorem htmlMark_erase (m : MarkCfg) (ok ko : List (List Nat)) (t : Tree) :
+    erase (markToks .norm m ok ko [] t) = t.strHT :=
+  erase_markToks .norm m ok ko [] t
+
+/-! ### part 2: the class every character is rendered with -/
+
+mutual
+/-- general form: reading the tokens of the sub-tree at `path` with a stack whose top is the class
+of the nearest marked strict ancestor labels its characters as specified and restores the stack -/
+theorem classAtAux_markToks (s : NumStyle) (m : MarkCfg) (ok ko : List (List Nat)) :
+    ∀ (path : List Nat) (t : Tree) (stk : List Str) (rest : List MTok),
+      stk.head? = parentClass m ok ko (path.length + 1) path →
+      classAtAux stk (markToks s m ok ko path t ++ rest) =
+        charClasses s (effClass m ok ko) path t ++ classAtAux stk rest
+  | path, .none _, stk, rest, _ => by simp [markToks, charClasses]
+  | path, .term _ v l, stk, rest, h => by
+      simp only [markToks, charClasses, nodeToks]
+      refine classAtAux_wrap m ok ko path stk h _ rest _ ?_
+      intro stk' rest' h'
+      simp only [List.append_assoc, classAtAux_chrs, h']
+  | path, .field n e l, stk, rest, h => by
+      simp only [markToks, charClasses, nodeToks]
+      refine classAtAux_wrap m ok ko path stk h _ rest _ ?_
+      intro stk' rest' h'
+      have ih := fun r => classAtAux_markToks s m ok ko (path ++ [0]) e stk' r
+        (by rw [parentClass_child]; exact h')
+      simp only [List.append_assoc, classAtAux_chrs, h', ih]
+  | path, .group _ e l, stk, rest, h => by
+      simp only [markToks, charClasses, nodeToks]
+      refine classAtAux_wrap m ok ko path stk h _ rest _ ?_
+      intro stk' rest' h'
+      have ih := fun r => classAtAux_markToks s m ok ko (path ++ [0]) e stk' r
+        (by rw [parentClass_child]; exact h')
+      simp only [List.append_assoc, classAtAux_chrs, h', ih]
+  | path, .range a b il ih l, stk, rest, h => by
+      simp only [markToks, charClasses, nodeToks]
+      refine classAtAux_wrap m ok ko path stk h _ rest _ ?_
+      intro stk' rest' h'
+      have iha := fun r => classAtAux_markToks s m ok ko (path ++ [0]) a stk' r
+        (by rw [parentClass_child]; exact h')
+      have ihb := fun r => classAtAux_markToks s m ok ko (path ++ [1]) b stk' r
+        (by rw [parentClass_child]; exact h')
+      simp only [List.append_assoc, classAtAux_chrs, h', iha, ihb]
+  | path, .approx _ e n l, stk, rest, h => by
+      simp only [markToks, charClasses, nodeToks]
+      refine classAtAux_wrap m ok ko path stk h _ rest _ ?_
+      intro stk' rest' h'
+      have ih := fun r => classAtAux_markToks s m ok ko (path ++ [0]) e stk' r
+        (by rw [parentClass_child]; exact h')
+      simp only [List.append_assoc, classAtAux_chrs, h', ih]
+  | path, .boost e n l, stk, rest, h => by
+      simp only [markToks, charClasses, nodeToks]
+      refine classAtAux_wrap m ok ko path stk h _ rest _ ?_
+      intro stk' rest' h'
+      have ih := fun r => classAtAux_markToks s m ok ko (path ++ [0]) e stk' r
+        (by rw [parentClass_child]; exact h')
+      simp only [List.append_assoc, classAtAux_chrs, h', ih]
+  | path, .op k xs l, stk, rest, h => by
+      simp only [markToks, charClasses, nodeToks]
+      refine classAtAux_wrap m ok ko path stk h _ rest _ ?_
+      intro stk' rest' h'
+      have ih := fun r => classAtAux_markToksList s m ok ko k.word path 0 xs stk' r h'
+      simp only [List.append_assoc, classAtAux_chrs, h', ih]
+  | path, .unary k e l, stk, rest, h => by
+      simp only [markToks, charClasses, nodeToks]
+      refine classAtAux_wrap m ok ko path stk h _ rest _ ?_
+      intro stk' rest' h'
+      have ih := fun r => classAtAux_markToks s m ok ko (path ++ [0]) e stk' r
+        (by rw [parentClass_child]; exact h')
+      simp only [List.append_assoc, classAtAux_chrs, h', ih]
+  | path, .orange k e i l, stk, rest, h => by
+      simp only [markToks, charClasses, nodeToks]
+      refine classAtAux_wrap m ok ko path stk h _ rest _ ?_
+      intro stk' rest' h'
+      have ih := fun r => classAtAux_markToks s m ok ko (path ++ [0]) e stk' r
+        (by rw [parentClass_child]; exact h')
+      simp only [List.append_assoc, classAtAux_chrs, h', ih]
+theorem classAtAux_markToksList (s : NumStyle) (m : MarkCfg) (ok ko : List (List Nat)) (sep : Str) :
+    ∀ (path : List Nat) (i : Nat) (xs : List Tree) (stk : List Str) (rest : List MTok),
+      stk.head? = effClass m ok ko path →
+      classAtAux stk (joinL (chrs sep) (markToksList s m ok ko path i xs) ++ rest) =
+        joinL (lab (effClass m ok ko path) sep) (charClassesList s (effClass m ok ko) path i xs)
+          ++ classAtAux stk rest
+  | path, i, [], stk, rest, _ => by simp [markToksList, charClassesList, joinL]
+  | path, i, x :: r, stk, rest, h => by
+      have ihx := fun r' => classAtAux_markToks s m ok ko (path ++ [i]) x stk r'
+        (by rw [parentClass_child]; exact h)
+      have ihr := classAtAux_markToksList s m ok ko sep path (i + 1) r stk rest h
+      cases r with
+      | nil => simp only [markToksList, charClassesList, joinL, ihx]
+      | cons y r' =>
+        simp only [markToksList, charClassesList, joinL] at ihr ⊢
+        simp only [List.append_assoc, ihx, classAtAux_chrs, h, ihr]
+end
+
+/-- **class per character**: in the marked output of a whole tree every character is rendered
+inside the elements whose innermost one has the class of the nearest marked ancestor-or-self of
+the node that contributes the character — in both modes -/
+theorem classAt_markToks (s : NumStyle) (m : MarkCfg) (ok ko : List (List Nat)) (t : Tree) :
+    classAt (markToks s m ok ko [] t) = charClasses s (effClass m ok ko) [] t := by
+  have := classAtAux_markToks s m ok ko [] t [] [] (by simp [parentClass_nil])
+  simpa [classAt, classAtAux] using this
+
+mutual
+/-- the characters labelled by the specification are the characters of the query, in order -/
+theorem map_fst_charClasses (s : NumStyle) (cls : List Nat → Option Str) :
+    ∀ (path : List Nat) (t : Tree), (charClasses s cls path t).map Prod.fst = t.full s
+  | path, .none _ => by simp [charClasses, Tree.full]
+  | path, .term _ v l => by simp [charClasses, Tree.full, map_fst_lab]
+  | path, .field n e l => by
+      simp [charClasses, Tree.full, map_fst_lab, map_fst_charClasses s cls (path ++ [0]) e]
+  | path, .group _ e l => by
+      simp [charClasses, Tree.full, map_fst_lab, map_fst_charClasses s cls (path ++ [0]) e]
+  | path, .range a b il ih l => by
+      simp [charClasses, Tree.full, map_fst_lab, map_fst_charClasses s cls (path ++ [0]) a,
+        map_fst_charClasses s cls (path ++ [1]) b]
+  | path, .approx _ e n l => by
+      simp [charClasses, Tree.full, map_fst_lab, map_fst_charClasses s cls (path ++ [0]) e]
+  | path, .boost e n l => by
+      simp [charClasses, Tree.full, map_fst_lab, map_fst_charClasses s cls (path ++ [0]) e]
+  | path, .op k xs l => by
+      simp [charClasses, Tree.full, map_fst_lab,
+        joinL_hom (List.map Prod.fst) (fun _ _ => List.map_append) rfl,
+        map_fst_charClassesList s cls path 0 xs, joinWith_eq_joinL]
+  | path, .unary k e l => by
+      simp [charClasses, Tree.full, map_fst_lab, map_fst_charClasses s cls (path ++ [0]) e]
+  | path, .orange k e i l => by
+      simp [charClasses, Tree.full, map_fst_lab, map_fst_charClasses s cls (path ++ [0]) e]
+theorem map_fst_charClassesList (s : NumStyle) (cls : List Nat → Option Str) :
+    ∀ (path : List Nat) (i : Nat) (xs : List Tree),
+      (charClassesList s cls path i xs).map (List.map Prod.fst) = Tree.fulls s xs
+  | path, i, [] => by simp [charClassesList, Tree.fulls]
+  | path, i, x :: r => by
+      simp [charClassesList, Tree.fulls, map_fst_charClasses s cls (path ++ [i]) x,
+        map_fst_charClassesList s cls path (i + 1) r]
+end
+
+/-- `effClass` does not look at the mode -/
+theorem effClass_parcimonious (m : MarkCfg) (b : Bool) (ok ko : List (List Nat)) :
+    effClass { m with parcimonious := b } ok ko = effClass m ok ko := by
+  funext path
+  simp only [effClass, cssClass_parcimonious, parentClass_parcimonious]
+
+/-- fuel-free reading of `effClass`: the class of the longest prefix of `path` (itself included)
+that is in `ok` or `ko` -/
+theorem effClass_eq_findSome (m : MarkCfg) (ok ko : List (List Nat)) (path : List Nat) :
+    effClass m ok ko path =
+      (List.range (path.length + 1)).reverse.findSome? (fun n => cssClass m ok ko (path.take n)) := by
+  rw [effClass, parentClass_eq_findSome m ok ko _ path (Nat.le_succ _)]
+  cases hc : cssClass m ok ko path <;> simp [List.range_succ, hc]
+
+/-- **parsimony changes only how many elements are emitted**, never the class a character is
+rendered with -/
+theorem parcimonious_same_classes (s : NumStyle) (m : MarkCfg) (ok ko : List (List Nat)) (t : Tree) :
+    classAt (markToks s { m with parcimonious := true } ok ko [] t) =
+      classAt (markToks s { m with parcimonious := false } ok ko [] t) := by
+  rw [classAt_markToks, classAt_markToks, effClass_parcimonious m true, effClass_parcimonious m false]
+
+/-- … and the text without tags is the same too -/
+theorem parcimonious_same_text (s : NumStyle) (m : MarkCfg) (ok ko : List (List Nat)) (t : Tree) :
+    erase (markToks s { m with parcimonious := true } ok ko [] t) =
+      erase (markToks s { m with parcimonious := false } ok ko [] t) := by
+  rw [erase_markToks, erase_markToks]
+
+/-! ### (iv) the marked tree has the shape of the original; only heads / tails differ -/
+
+/-- at every path `q`: the marked tree has a node there exactly when the original has, and that node
+is the original node `u` with the same class and own attributes, its layout `markLay q u.lay.noName`
+(by `Luqum.Lemmas.Mark.markLay_cases`: unchanged, or open tag before head AND close tag after tail),
+and marked children -/
+theorem markTree_shape (m : MarkCfg) (ok ko : List (List Nat)) (t : Tree) (q : List Nat) :
+    (markTree m ok ko [] t).at? q = (t.at? q).map (markTree m ok ko q) ∧
+    ∀ u : Tree,
+      (markTree m ok ko q u).className = u.className ∧
+      (markTree m ok ko q u).lay = markLay m ok ko q u.lay.noName ∧
+      (markTree m ok ko q u).children = markList m ok ko q 0 u.children ∧
+      (u.setChildren (markTree m ok ko q u).children).map
+        (fun v => v.setLay (markTree m ok ko q u).lay) = some (markTree m ok ko q u) := by
+  refine ⟨by simpa using markTree_at m ok ko q [] t, fun u => ⟨markTree_className .., markTree_lay ..,
+    markTree_children .., ?_⟩⟩
+  rw [markTree_children, markTree_lay]; exact markTree_eq m ok ko q u
+
+/-! ### non-vacuity: `a AND b`, root and first operand ok, second operand ko -/
+
+/-- the tree of `a AND b` as the parser builds it -/
+def aAndB : Tree :=
+  .op .and [.term .word "a".toList { tail := " ".toList },
+            .term .word "b".toList { head := " ".toList }] {}
+
+example : aAndB.strHT = "a AND b".toList := by decide
+
+example : htmlMark {} [[0]] [[1]] aAndB =
+    "<span class=\"ok\">a </span>AND<span class=\"ko\"> b</span>".toList := by decide
+
+/-- parsimonious: the first operand has the class of the root, no element for it -/
+example : markToks .norm {} [[], [0]] [[1]] [] aAndB =
+    [.opn "ok".toList, .chr 'a', .chr ' ', .chr 'A', .chr 'N', .chr 'D',
+     .opn "ko".toList, .chr ' ', .chr 'b', .clo, .clo] := by decide
+
+example : htmlMark {} [[], [0]] [[1]] aAndB =
+    "<span class=\"ok\">a AND<span class=\"ko\"> b</span></span>".toList := by decide
+
+/-- not parsimonious: one more element, same classes -/
+example : htmlMark { parcimonious := false } [[], [0]] [[1]] aAndB =
+    "<span class=\"ok\"><span class=\"ok\">a </span>AND<span class=\"ko\"> b</span></span>".toList := by
+  decide
+
+example : classAt (markToks .norm {} [[], [0]] [[1]] [] aAndB) =
+    [('a', some "ok".toList), (' ', some "ok".toList), ('A', some "ok".toList),
+     ('N', some "ok".toList), ('D', some "ok".toList), (' ', some "ko".toList),
+     ('b', some "ko".toList)] := by decide
+
+example : classAt (markToks .norm { parcimonious := false } [[], [0]] [[1]] [] aAndB) =
+    classAt (markToks .norm {} [[], [0]] [[1]] [] aAndB) := by decide
+
+/-- unmarked characters have no class; a path that is not in the tree marks nothing -/
+example : classAt (markToks .norm {} [[1]] [[5]] [] aAndB) =
+    [('a', none), (' ', none), ('A', none), ('N', none), ('D', none),
+     (' ', some "ok".toList), ('b', some "ok".toList)] := by decide
+
+/-- `balanced` does reject badly nested tokens -/
+example : balanced [.clo, .opn "ok".toList] = false := by decide
+example : balanced [.opn "ok".toList, .chr 'a'] = false := by decide
+
+/-- a marked `NoneItem` prints nothing (its head and tail are ignored), so its mark vanishes -/
+example : htmlMark {} [[]] [] noneItem = [] := by decide
+
 end Luqum.Props.C17
